@@ -93,16 +93,17 @@ SUBGRID = {
     "NP1": [(0, r, c) for r in range(4) for c in ((0, 2) if r % 2 == 0 else (1, 3))] +
            [(0, r, c) for r in (100, 101, 478, 479) for c in ((0, 2) if r % 2 == 0 else (1, 3))],
     "NP2.1": [(0, r, c) for r in (0, 1, 2, 3, 300, 301, 638, 639) for c in (0, 1)],
-    "NP2.4": [(s, r, c) for s in (0, 1, 2, 3) for r in (0, 47) for c in (0, 1)],
+    "NP2.4": [(s, r, c) for s in (0, 1, 2, 3) for r in (0, 600) for c in (0, 1)],
+    "NP2.4-low": [(s, r, c) for s in (0, 1, 2, 3) for r in (47, 48) for c in (0, 1)],
     "NPultra": [(0, r, c) for r in (0, 47) for c in range(8)],
 }
-KIND_OF = {"NP1": ("3B2", "3A", "3B1"), "NP2.1": ("NP2.1", "NP2.1b"), "NP2.4": ("NP2.4", "NP2.4b"), "NPultra": ("NPultra",)}
+KIND_OF = {"NP1": ("3B2", "3A", "3B1"), "NP2.1": ("NP2.1", "NP2.1b"), "NP2.4": ("NP2.4", "NP2.4b"), "NP2.4-low": ("NP2.4b", "NP2.4"), "NPultra": ("NPultra",)}
 
 
 def select_cases(tier, seed):
     k = 3 if tier == "quick" else 4
     out = []
-    for layout in ("NP1", "NP2.1", "NP2.4", "NPultra"):
+    for layout in ("NP1", "NP2.1", "NP2.4", "NP2.4-low", "NPultra"):
         n = len(SUBGRID[layout])
         firsts = range(n)
         for a in firsts:
@@ -192,7 +193,7 @@ def select_check(case):
                         bad("encodings:%s" % key, "%s %r: shank-map and geometry-map files give different %s: %r vs %r"
                             % (kind, sites, key, np.asarray(a[key]).tolist(), np.asarray(b[key]).tolist()))
         # a split shank's geometry is the restriction of its parent's
-        if layout == "NP2.4" and "shank" in res:
+        if layout.startswith("NP2.4") and "shank" in res:
             parent_s, parent_u = res["shank"]
             for sh in sorted({s[0] for s in sites}):
                 for sort, parent in ((True, parent_s), (False, parent_u)):
